@@ -32,7 +32,7 @@ Cap(t) == CASE t \in {"gps", "tr"} -> 2 [] t = "prep" -> 20 [] OTHER -> 1
 (* literal call forms offered to the public methods, and their meaning (truncate, table, strict) *)
 GpsForms == {"()", "(T)", "(F,11)"}
 TrForms == {"()", "(T)", "(F,11)", "(F,1,F)"}
-Windows == {"w1", "w2"}
+CONSTANT Windows   \* subset of {"w1", "w2"}
 Sem(f) == CASE f \in {"()", "kw(F,1)"} -> <<FALSE, 1, TRUE>>
             [] f \in {"(T)", "kw(T,1)"} -> <<TRUE, 1, TRUE>>
             [] f \in {"(F,11)", "kw(F,11)"} -> <<FALSE, 11, TRUE>>
@@ -55,6 +55,8 @@ IsHit(s, t, k) == Idx(s.tbl[t], k) # 0
 DoHit(s, t, k) ==
   LET i == Idx(s.tbl[t], k) e == s.tbl[t][i] IN
   [s EXCEPT !.tbl[t] = Append(Without(@, i), e), !.st[t] = <<@[1] + 1, @[2]>>, !.ret = EVal(e)]
+(* tables that can evict (more call forms than capacity): only for them does the recency order decide anything *)
+Evicting == {"gps", "tr"}
 CountMiss(s, t) == [s EXCEPT !.st[t] = <<@[1], @[2] + 1>>]
 (* after the body returned v: file it, evicting the least recently used entry of a full table *)
 Store(s, t, k, v) ==
